@@ -224,7 +224,19 @@ pub fn check(prop: &str, tier: Tier, args: &[String]) -> i32 {
                     a.evaluations += 1;
                     a.violations.push((scen.clone(), v));
                 }
-                ChildOut::Timeout => timeouts.lock().unwrap().push(run_seed),
+                ChildOut::Timeout => {
+                    // C14 and C15 state "never a hang" / "no interleaving deadlocks": a run that does
+                    // not finish within the wall-clock limit (hundreds of times its normal duration,
+                    // not detected by the scheduler's deadlock / step-cap detectors, i.e. a loop
+                    // without any synchronisation inside nomt) is a violation there; elsewhere it
+                    // is a harness error.
+                    if prop == "C14" || prop == "C15" {
+                        let v = Violation { property: prop.clone(), class: "hang-timeout".into(), detail: format!("the run did not finish within {} s", run_timeout.as_secs()), step: None };
+                        let mut a = agg.lock().unwrap();
+                        a.evaluations += 1;
+                        a.violations.push((scen.clone(), v));
+                    } else { timeouts.lock().unwrap().push(run_seed) }
+                }
             }
             }
         }));
@@ -381,11 +393,11 @@ pub fn minimise(orig: &Scenario, v: &Violation, deadline: Instant) -> (Scenario,
 
 fn write_replay(prop: &str, run_seed: u64, scen: &Scenario, v: &Violation, _tier: Tier, t0: Instant, budget: Duration) -> PathBuf {
     // confirm, then minimise within what is left of the budget (at least 45 s, at most 240 s)
-    let confirm = matches!(run_scenario_child(scen, "confirm", Duration::from_secs(300)), ChildOut::Report(r) if same(v, &r));
+    let confirm = if v.class == "hang-timeout" { matches!(run_scenario_child(scen, "confirm", Duration::from_secs(150)), ChildOut::Timeout) } else { matches!(run_scenario_child(scen, "confirm", Duration::from_secs(300)), ChildOut::Report(r) if same(v, &r)) };
     let left = budget.saturating_sub(t0.elapsed());
     let deadline = Instant::now() + left.clamp(Duration::from_secs(45), Duration::from_secs(240));
-    let (min, tried) = if confirm { minimise(scen, v, deadline) } else { (scen.clone(), 0) };
-    let final_v = match run_scenario_child(&min, "final", Duration::from_secs(300)) { ChildOut::Report(r) => r.violations.into_iter().find(|x| (x.property == v.property && x.class == v.class) || format!("{}-{}", x.property, x.class) == v.class).map(|mut x| { x.property = v.property.clone(); x.class = v.class.clone(); x }).unwrap_or_else(|| v.clone()), _ => v.clone() };
+    let (min, tried) = if confirm && v.class != "hang-timeout" { minimise(scen, v, deadline) } else { (scen.clone(), 0) };
+    let final_v = if v.class == "hang-timeout" { v.clone() } else { match run_scenario_child(&min, "final", Duration::from_secs(300)) { ChildOut::Report(r) => r.violations.into_iter().find(|x| (x.property == v.property && x.class == v.class) || format!("{}-{}", x.property, x.class) == v.class).map(|mut x| { x.property = v.property.clone(); x.class = v.class.clone(); x }).unwrap_or_else(|| v.clone()), _ => v.clone() } };
     let dir = verif_root().join("replays");
     let _ = std::fs::create_dir_all(&dir);
     let path = dir.join(format!("{prop}-{run_seed}-{:04x}.json", shape_hash(scen) & 0xffff));
@@ -403,7 +415,7 @@ pub fn replay(file: &str) -> i32 {
     let scen: Scenario = match serde_json::from_value(doc["scenario"].clone()) { Ok(s) => s, Err(e) => { eprintln!("bad scenario in {file}: {e}"); return 2; } };
     let class = doc["violation"].as_str().unwrap_or("").to_string();
     let prop = doc["property"].as_str().unwrap_or("").to_string();
-    match run_scenario_child(&scen, "replay", Duration::from_secs(600)) {
+    match run_scenario_child(&scen, "replay", Duration::from_secs(if class == "hang-timeout" { 150 } else { 600 })) {
         ChildOut::Report(r) => {
             for v in &r.violations { println!("  observed: property={} class={} step={:?} detail={}", v.property, v.class, v.step, v.detail); }
             if r.violations.iter().any(|v| (v.property == prop && v.class == class) || format!("{}-{}", v.property, v.class) == class) {
@@ -412,6 +424,6 @@ pub fn replay(file: &str) -> i32 {
             } else { println!("replay of {file}: the recorded violation ({prop}:{class}) did not occur"); 0 }
         }
         ChildOut::Abort(m) => { if class == "process-abort" { println!("VIOLATION property={prop} replay={file}"); 1 } else { eprintln!("HARNESS ERROR: {m}"); 2 } }
-        ChildOut::Timeout => { eprintln!("HARNESS ERROR: replay timed out"); 2 }
+        ChildOut::Timeout => { if class == "hang-timeout" { println!("  observed: the run did not finish within the wall-clock limit"); println!("VIOLATION property={prop} replay={file}"); 1 } else { eprintln!("HARNESS ERROR: replay timed out"); 2 } }
     }
 }
